@@ -18,6 +18,8 @@ func main() {
 	switch os.Args[1] {
 	case "func":
 		cmdFunc(os.Args[2:])
+	case "sweep":
+		cmdSweep(os.Args[2:])
 	case "list":
 		e, err := engine.Load("/repo", "/verif", []string{"./..."})
 		if err != nil {
@@ -117,5 +119,73 @@ func printReport(rep *engine.FuncReport, all bool) {
 	}
 	for _, a := range rep.Assumed {
 		fmt.Println("   assumed:", a)
+	}
+}
+
+// cmdSweep: zero-annotation safety sweep (DESIGN §13): every repo function matching the
+// given substrings that has no contract is executed symbolically with unconstrained
+// parameters and its language-level safety obligations are tried once; refuted ones are
+// candidates for genuine defects (or for a missing precondition) and are only a work list,
+// never a verdict.
+func cmdSweep(args []string) {
+	e, err := engine.Load("/repo", "/verif", []string{"./..."})
+	if err != nil {
+		fmt.Fprintln(os.Stderr, "load:", err)
+		os.Exit(2)
+	}
+	e.Timeout = 5
+	e.Tier = "sweep"
+	var keys []string
+	for k, fn := range e.Funcs {
+		if fn.Blocks == nil || fn.Synthetic != "" || fn.Parent() != nil {
+			continue
+		}
+		pk := engine.FnPkg(fn)
+		if pk == nil || !strings.HasPrefix(pk.Pkg.Path(), "github.com/verily-src/fhirpath-go") {
+			continue
+		}
+		if strings.Contains(k, "/grammar.") || strings.Contains(k, "fhirtest") || strings.Contains(k, "stablerand") || strings.Contains(k, "[") {
+			continue
+		}
+		ok := len(args) == 0
+		for _, a := range args {
+			if strings.Contains(k, a) {
+				ok = true
+			}
+		}
+		if !ok {
+			continue
+		}
+		if e.Contracts[k] != nil {
+			continue
+		}
+		keys = append(keys, k)
+	}
+	sort.Strings(keys)
+	scratch, _ := os.MkdirTemp("", "govc-sweep-")
+	defer os.RemoveAll(scratch)
+	e.SkipRace = map[string]bool{}
+	for _, k := range keys {
+		rep := e.VerifyFunction(e.Funcs[k])
+		if rep.Error != "" {
+			fmt.Printf("SKIP %s: %s\n", rep.Func, rep.Error)
+			continue
+		}
+		for _, ob := range rep.Obligations {
+			e.SkipRace[ob.Name] = true
+		}
+		e.Solve(rep, scratch)
+		n, bad := 0, 0
+		for _, ob := range rep.Obligations {
+			if ob.Kind == "vacuity" {
+				continue
+			}
+			n++
+			if ob.Status != "discharged" {
+				bad++
+				fmt.Printf("OPEN %s %s %s | %s\n", ob.Name, ob.Kind, ob.Pos, ob.Text)
+			}
+		}
+		fmt.Printf("FUNC %s obligations=%d open=%d\n", rep.Func, n, bad)
 	}
 }
